@@ -45,3 +45,8 @@ Definition eval_emit (c : N * list N) : string :=
       end
   | [] => "NOPDU"
   end ++ "|" ++ show_bytes (rtu_frame_of dest pdu).
+
+(* the RTU client over several connections (response parser) *)
+Definition eval_client_rtu (c : list (list (list N) * fin)) : string :=
+  show_list show_run " / " (client_connections true (reader_new KRtuResponse) c) ++ "|" ++
+  show_list show_frames " / " (map (fun x => let '(s, f) := sched_stream (fst x) (snd x) in ref_rtu_frames Responses s f) c).
